@@ -2,7 +2,7 @@
 From Coq Require Import List ZArith Bool.
 From Coq.Strings Require Import Byte.
 Import ListNotations.
-From SV Require Import Text G_sjson C14_Model C14_Lemmas C14_Text C14_TextLemmas.
+From SV Require Import Text G_sjson C14_Model C14_Lemmas C14_Text C14_TextLemmas C14_DomainLemmas.
 
 (* P0: BioBasket.write(fmt='sjson') followed by read_sjson returns the basket with, in every Attr/Meta mapping, exactly the
    keys rejected by the encoder filter removed (strip); everything else -- residues, type, nested metadata with its classes,
@@ -221,3 +221,49 @@ Proof. exact w_pyv_ok. Qed.
 
 Example C14_witness_bytes : wfo w_basket = true /\ read_bytes (write_bytes w_basket) = Ok (strip w_basket).
 Proof. exact w_bytes_ok. Qed.
+
+(* ======== THE BORDERS OF THE DOMAIN (round 7): must unsorted tuples, several strands and lower-case residues stay out? ========== *)
+(* LocationTuple(locs) on Location objects always returns a non-empty, one-strand tuple in the order of transcription, is the
+   identity on such tuples (so constructing, rc(), slice(), assignment to ft.locs ... -- everything that ends in LocationTuple(...)
+   -- lands inside the domain), and returns its argument when that was in order *)
+Theorem C14_locationtuple_ordered : forall l l', forallb is_loc l = true -> location_tuple l = Ok l' ->
+  l' <> [] /\ forallb is_loc l' = true /\ same_strands l' = true /\ sorted_by (loc_order l') l' = true /\
+  location_tuple l' = Ok l' /\ (sorted_by (loc_order l) l = true -> l' = l).
+Proof. exact locationtuple_ordered. Qed.
+Print Assumptions C14_locationtuple_ordered.
+
+(* a feature that satisfies everything except the order of its locations (Location attributes edited in place) is read back SORTED
+   (stable), and it is read back as written exactly when it was in order: the order clause is necessary *)
+Theorem C14_feature_roundtrip_sorts : forall m locs, wf_feat_but_order m locs = true -> same_strands locs = true ->
+  dec (enc (OFeat m locs)) = Ok (OFeat (strip_items m) (map strip (sort_by (loc_order locs) locs))).
+Proof. exact feature_roundtrip_sorts. Qed.
+Print Assumptions C14_feature_roundtrip_sorts.
+
+Theorem C14_feature_roundtrip_iff_sorted : forall m locs, wf_feat_but_order m locs = true -> same_strands locs = true ->
+  (dec (enc (OFeat m locs)) = Ok (strip (OFeat m locs)) <-> sorted_by (loc_order locs) locs = true).
+Proof. exact feature_roundtrip_iff_sorted. Qed.
+Print Assumptions C14_feature_roundtrip_iff_sorted.
+
+(* several strands in one feature (only reachable by editing loc.strand in place): the written file cannot be read -- they MUST stay out *)
+Theorem C14_mixed_strands_unreadable : forall m locs, wf_feat_but_order m locs = true -> same_strands locs = false ->
+  dec (enc (OFeat m locs)) = Err E_Value.
+Proof. exact feature_mixed_strands_unreadable. Qed.
+Print Assumptions C14_mixed_strands_unreadable.
+
+(* residues: whatever was written, the reader returns the upper-cased residues; equal exactly when there is no lower-case ASCII
+   letter -- lower-case residues (seq.data = ..., seq.str.lower()) MUST stay out *)
+Theorem C14_lowercase_residues_uppercased : forall d m t, wf_seq_but_case m t = true ->
+  dec (enc (OSeq d m t)) = Ok (OSeq (upper d) (strip_items m) t) /\
+  (dec (enc (OSeq d m t)) = Ok (strip (OSeq d m t)) <-> upper d = d) /\
+  (upper d = d <-> forallb (fun c => negb (is_lower_ascii c)) d = true).
+Proof. exact (fun d m t H => conj (seq_roundtrip_uppercases d m t H) (conj (seq_roundtrip_iff_no_lower d m t H) (upper_fix_iff d))). Qed.
+Print Assumptions C14_lowercase_residues_uppercased.
+
+Example C14_witness_borders :
+  wf_feat_but_order [(K_type, OStr (bs "CDS"%bs))] w_locs_unsorted = true /\ same_strands w_locs_unsorted = true /\
+  sorted_by (loc_order w_locs_unsorted) w_locs_unsorted = false /\
+  location_tuple w_locs_unsorted = Ok [OLoc 30 40 S_minus 0 None; OLoc 12 20 S_minus 1 None; OLoc 5 20 S_minus 2 (Some [])] /\
+  wf_feat_but_order [] [OLoc 1 2 S_plus 0 None; OLoc 5 6 S_minus 0 None] = true /\
+  same_strands [OLoc 1 2 S_plus 0 None; OLoc 5 6 S_minus 0 None] = false /\
+  wf_seq_but_case [(K_id, OStr [])] N_nt = true /\ upper (bs "acgU-n"%bs) = bs "ACGU-N"%bs.
+Proof. exact w_unsorted_ok. Qed.
